@@ -419,6 +419,7 @@ class Interp(object):
         self.stack = []
         self.cur_file = None
         self.functions_entered = set()
+        self.branches = {}  # (file, line, col) -> bit 1: test seen true, bit 2: test seen false
         self.builtins = self._make_builtins()
         self.pytree_classes = set()
         self.jit_roundtrip = True
@@ -763,6 +764,11 @@ class Interp(object):
                 return sig
         return None
 
+    def _branch(self, test, outcome):
+        k = (self.cur_file, test.lineno, test.col_offset)
+        self.branches[k] = self.branches.get(k, 0) | (1 if outcome else 2)
+        return outcome
+
     def exec_stmt(self, st, env, module, func):
         self.steps += 1
         if self.steps > self.step_limit:
@@ -792,7 +798,7 @@ class Interp(object):
         if t is ast.Return:
             return _Signal("return", None if st.value is None else self.eval(st.value, env, func))
         if t is ast.If:
-            if self.truth(self.eval(st.test, env, func)):
+            if self._branch(st.test, self.truth(self.eval(st.test, env, func))):
                 return self.exec_block(st.body, env, module, func)
             return self.exec_block(st.orelse, env, module, func)
         if t is ast.For:
@@ -1197,7 +1203,7 @@ class Interp(object):
                     d[self.eval(k, env, func)] = self.eval(v, env, func)
             return d
         if t is ast.IfExp:
-            if self.truth(self.eval(node.test, env, func)):
+            if self._branch(node.test, self.truth(self.eval(node.test, env, func))):
                 return self.eval(node.body, env, func)
             return self.eval(node.orelse, env, func)
         if t is ast.Lambda:
